@@ -298,11 +298,11 @@ func (w *ObjectStatusReporter) startInformerWithRetry(ctx context.Context, gkn G
 			// Create a temporary input channel to send the error event.
 			eventCh := make(chan event.Event)
 			defer close(eventCh)
-			err := w.funnel.AddInputChannel(eventCh)
-			if err != nil {
+			// Don't shadow err: it is the error to report below.
+			if addErr := w.funnel.AddInputChannel(eventCh); addErr != nil {
 				// Reporter already stopped.
 				// This is fine. 🔥
-				klog.V(5).Infof("Informer failed to start: %v", err)
+				klog.V(5).Infof("Informer failed to start: %v", addErr)
 				return
 			}
 			// Send error event and stop the reporter!
